@@ -71,6 +71,26 @@ func wRestoreProbes(sink *Sink, rng *rand.Rand, scratch string) {
 				"mint 64; send 5; payee swaps the 5 with witness \"thanks!\"; restore", nil)
 		}
 	}()
+	// (c) the same mint under a second URL spelling: the keyset is saved once more, with counter 0; the counter the wallet
+	// derives its next outputs from must still be the one it has reached
+	func() {
+		env := newSelEnv(scratch, rng, [3]uint{0, 0, 0}, false)
+		defer env.Close()
+		if err := selMintInto(env, env.sender, 64); err != nil {
+			sink.Note("url probe: could not mint: " + err.Error())
+			return
+		}
+		alias := "http://c18-mint.verif:3339" // served by the same in-process mint; sorts after the first URL
+		if _, err := env.sender.AddMint(alias); err != nil {
+			sink.Note("url probe: AddMint refused: " + err.Error())
+			return
+		}
+		sink.Stat("url-probe:second-spelling-of-a-known-mint")
+		if err := selMintInto(env, env.sender, 8); err != nil {
+			sink.Violate("counter-reset-by-second-url-of-a-mint", fmt.Sprintf("after AddMint of a second URL of the wallet's own mint the next mint request is refused: %v", err),
+				"mint 64; AddMint(second URL of the same mint); mint 8", nil)
+		}
+	}()
 	// (b) restored wallet on a rotated fee-charging mint
 	func() {
 		env := newSelEnv(scratch, rng, [3]uint{100, 100, 100}, false)
